@@ -18,11 +18,13 @@ class Facts:
         self.traits = {}
         self.impls = []
         self.consts = {}
+        self.crate_attrs = {}
         for c in (crates or WORKSPACE_CRATES):
             p = os.path.join(facts_dir, c + ".json")
             with open(p) as fh:
                 d = json.load(fh)
             self.crates[c] = d
+            self.crate_attrs[c] = d["ast"].get("crate_attrs", [])
             for b in d["bodies"]:
                 b["crate"] = c
                 self.bodies_all.setdefault(b["path"], []).append(b)
